@@ -42,17 +42,36 @@ def solve_for(d):
     return None
 
 
-def substitute(v, s, repl):
+def substitute_all(v, env):
+    """v with every symbol of env {symbol index: Value} replaced (one re-evaluation pass)"""
     from . import fields
 
+    if not env:
+        return v
     C = alg.ctx()
-    env = {}
+    full = {}
     for t in range(len(C.names)):
-        if t == s:
-            env[t] = S.Sym.of_value(repl)
+        if t in env:
+            full[t] = S.Sym.of_value(env[t])
         elif _plain(C, t) or C.names[t] == "pi":
-            env[t] = S.Sym.of_value(Value({C.mono([(t, QU)]): 1}))
-    return S.expand(S.lift(alg.evalv(v, env, fields.SymField())))
+            full[t] = S.Sym.of_value(Value({C.mono([(t, QU)]): 1}))
+    return S.expand(S.lift(alg.evalv(v, full, fields.SymField())))
+
+
+def substitute(v, s, repl):
+    return substitute_all(v, {s: repl})
+
+
+def _mentions(v, s):
+    C = alg.ctx()
+    for part in alg.simple_parts(v):
+        monos = list(part.n) + [part.dm]
+        for f in part.df:
+            monos += list(C.factors[f])
+        for mo in monos:
+            if any(t == s for t, _ in C.items(mo)):
+                return True
+    return False
 
 
 def equations_of(formulas):
@@ -68,17 +87,24 @@ def equations_of(formulas):
     return out
 
 
-def reduce_under(v, formulas, limit=8):
-    """v rewritten with the equations of the path; returns (value, number of substitutions made)"""
-    eqs = equations_of(formulas)
-    done = 0
-    while eqs and done < limit:
-        d = eqs.pop(0)
+def solve_path(formulas, limit=400):
+    """triangular solution {symbol: Value over the unsolved symbols} of the equations of a path (computed once per path)"""
+    env = {}
+    for d in equations_of(formulas)[:limit]:
+        d = substitute_all(d, env)
         sol = solve_for(d)
         if sol is None:
             continue
         s, repl = sol
-        v = substitute(v, s, repl)
-        eqs = [substitute(e, s, repl) for e in eqs]
-        done += 1
-    return v, done
+        for t in list(env):
+            if _mentions(env[t], s):
+                env[t] = substitute_all(env[t], {s: repl})
+        env[s] = repl
+    return env
+
+
+def reduce_under(v, formulas, env=None):
+    """v rewritten with the equations of the path; returns (value, number of solved symbols)"""
+    if env is None:
+        env = solve_path(formulas)
+    return substitute_all(v, env), len(env)
